@@ -34,7 +34,9 @@ def run(prog, rep, tier):
                   "is reset with the pull), so alternatives are served left to right for every input, not rotated by earlier inputs; "
                   "Y2: the scanner fields that only matter inside %( ... %) (level, in_string) are set to their initial value whenever that start "
                   "condition is entered or provably restored whenever it is left (typestate over the flex actions), so every splice of a format "
-                  "string is scanned independently of the previous one; R8: in every function that holds a reference into the per-execution state "
+                  "string is scanned independently of the previous one; E3: op_or::next interpreted from source with an abstract upstream of two inputs and 1-3 abstract branches that yield 0, 1 or 2 "
+                  "stacks per input (all combinations): per input exactly all results of the first branch that yields anything; "
+                  "R8: in every function that holds a reference into the per-execution state "
                   "area (scon::get), a field handed with std::move to a by-value or && parameter (smart pointers excepted: their moved-from state "
                   "is the `none` the op tests) is assigned, emplaced or reset again on every CFG path to the exit (a value cached for the current "
                   "input, e.g. the suffix a format splice appends to every result, is still intact for the next result); positive control under /verif/controls.")
@@ -46,6 +48,7 @@ def run(prog, rep, tier):
     apply(rep, "R7", "`no stack` is returned only when the upstream pull returned none", r_stream.r7(prog), 60)
     import r_lex
     apply(rep, "N6", "every %( ... %) splice of a literal is delimited on its own, whatever the previous splice contained (scanner simulated)", r_lex.n6(prog), 2)
+    apply(rep, "E3", "`A || B`: per input all results of the first alternative that yields anything, nothing else (op_or::next interpreted on abstract branches)", r_stream.e3(prog), 1)
     r8 = r_stream.r8(prog)
     apply(rep, "R8", "values cached in the execution state for the current input are not left moved-from", r8, 1)
     if not getattr(r8, "broken", None) and [i for i in r8[0] if i[0] == "R8:functions-with-state-references"][0][1]["scanned"] < 25:
